@@ -276,3 +276,64 @@ Proof.
   { split; [intros o []|reflexivity]. }
   exists ran, rest. cbn [app] in *. auto.
 Qed.
+
+(* ================================================================================================
+   the model's own sort (stable insertion sort) returns such an arrangement, so the filter theorem applies to
+   [one_to_one] as it is executed in the correspondence run *)
+Definition le_sd (a b : corrR) : Prop := src_dist_lt ROps b a = false.
+
+Lemma le_sd_iff a b : le_sd a b <-> (c_src a < c_src b)%Z \/ (c_src a = c_src b /\ c_sq a <= c_sq b).
+Proof.
+  unfold le_sd, src_dist_lt. cbn [nltb ROps]. rewrite orb_false_iff, andb_false_iff, Z.ltb_ge, Z.eqb_neq.
+  split.
+  - intros [H1 [H2|H2]]; [left; lia|]. apply Rltb_false in H2.
+    destruct (Z.eq_dec (c_src a) (c_src b)); [right; split; assumption | left; lia].
+  - intros [H|[H1 H2]]; [split; [lia | left; lia] | split; [lia | right; apply Rltb_false; exact H2]].
+Qed.
+
+Lemma le_sd_trans a b c : le_sd a b -> le_sd b c -> le_sd a c.
+Proof. rewrite !le_sd_iff. intros [H1|[H1 H1']] [H2|[H2 H2']]; [left; lia | left; lia | left; lia | right; split; [lia | lra]]. Qed.
+
+Lemma lt_sd_le a b : src_dist_lt ROps a b = true -> le_sd a b.
+Proof.
+  intros H. apply le_sd_iff. unfold src_dist_lt in H. cbn [nltb ROps] in H.
+  apply orb_true_iff in H. destruct H as [H|H]; [left; apply Z.ltb_lt; exact H|].
+  apply andb_true_iff in H. destruct H as [H1 H2]. apply Z.eqb_eq in H1. apply Rltb_true in H2. right. split; [exact H1 | lra].
+Qed.
+
+Lemma insert_by_perm (x : corrR) l : Permutation (x :: l) (insert_by (src_dist_lt ROps) x l).
+Proof.
+  induction l as [|y r IH]; cbn [insert_by]; [apply Permutation_refl|].
+  destruct (src_dist_lt ROps x y); [apply Permutation_refl|].
+  eapply Permutation_trans; [apply perm_swap | apply perm_skip; exact IH].
+Qed.
+
+Lemma insert_by_sorted (x : corrR) l : StronglySorted le_sd l -> StronglySorted le_sd (insert_by (src_dist_lt ROps) x l).
+Proof.
+  induction l as [|y r IH]; intros Hs; cbn [insert_by]; [repeat constructor|].
+  inversion Hs as [|y' r' Hr Hy]; subst.
+  destruct (src_dist_lt ROps x y) eqn:E.
+  - constructor; [exact Hs|]. constructor; [apply lt_sd_le; exact E|].
+    eapply Forall_impl; [|exact Hy]. intros z Hz. eapply le_sd_trans; [apply lt_sd_le; exact E | exact Hz].
+  - constructor; [apply IH; exact Hr|].
+    apply Forall_forall. intros z Hz.
+    eapply Permutation_in in Hz; [|apply Permutation_sym; apply insert_by_perm].
+    destruct Hz as [<-|Hz]; [exact E | rewrite Forall_forall in Hy; apply Hy; exact Hz].
+Qed.
+
+Lemma sort_by_spec_acc l : forall acc, StronglySorted le_sd acc ->
+  let s := fold_left (fun a x => insert_by (src_dist_lt ROps) x a) l acc in
+  Permutation (l ++ acc) s /\ StronglySorted le_sd s.
+Proof.
+  induction l as [|x r IH]; intros acc Ha; cbv zeta; cbn [fold_left app]; [split; [apply Permutation_refl | exact Ha]|].
+  destruct (IH (insert_by (src_dist_lt ROps) x acc) (insert_by_sorted x acc Ha)) as [P S]. cbv zeta in P, S.
+  split; [|exact S]. eapply Permutation_trans; [|exact P].
+  eapply Permutation_trans; [apply Permutation_middle|]. apply Permutation_app_head. apply insert_by_perm.
+Qed.
+
+Lemma sort_by_spec (l : list corrR) :
+  Permutation l (sort_by (src_dist_lt ROps) l) /\ sorted_by_src_dist (sort_by (src_dist_lt ROps) l).
+Proof.
+  destruct (sort_by_spec_acc l [] ltac:(constructor)) as [P S]. cbv zeta in P, S. rewrite app_nil_r in P.
+  split; [exact P | exact S].
+Qed.
